@@ -199,6 +199,7 @@ class AsyncShufflerIter(ShufflerIter):
         ('loses the replaced element', '                yield y', '                pass', 'invariant preserved'),
         ('overwrites without yielding the old one', 'y = buffer[idx]', 'y = x', 'invariant preserved'),
         ('final buffer not flushed', '            for x in buffer:\n                yield x', '            pass', 'permutation'),
+        ('final buffer handed out twice', '            for x in buffer:\n                yield x', '            for x in buffer:\n                yield x\n                yield x', 'invariant preserved'),
     )
 
     @property
